@@ -157,6 +157,10 @@ func reused(in []byte) []byte {
 	return reuseBuf[:len(in):len(in)]
 }
 
+// Runes that Unicode case mapping or "digit" classification relates to ASCII characters: a parser
+// that upper-cases, lower-cases or classifies with unicode-aware helpers may let them in.
+var confusables = []string{"\u0131", "\u0130", "\u017f", "\u212a", "\u2160", "\u2170", "\uff29", "\uff49", "\uff11", "\u0661", "\u00b9", "\u2164", "\u216f", "\u217f", "\u00e9"}
+
 // printable reports whether s can be logged as a JSON string and rebuilt by the
 // specification with ToString and \o (printable ASCII only).
 func printable(s []byte) bool {
